@@ -202,6 +202,15 @@ func (d *dsys) Apply(i int) (sig, desc string) {
 				}
 			}
 		}
+	case "suspendresume":
+		// Suspend clears the page; after Resume the next Show has to bring back the logical
+		// contents (every cell counts as changed: the page holds none of them any more)
+		_ = d.s.Suspend()
+		_ = d.s.Resume()
+		d.shown = false
+		for k := range d.sh.Cells {
+			d.sh.Cells[k].ChangedSince = true
+		}
 	case "show", "sync":
 		pg.stamp++
 		shows := pg.shows
@@ -274,6 +283,9 @@ func (d *dsys) compare(o op, full bool) string {
 			}
 			want := string(append([]rune{r}, sc.Comb...))
 			if !pc.drawn {
+				if want == " " && sc.S.IsZero() && pg.clears > 0 {
+					continue // a page cleared with the screen's default style shows exactly that
+				}
 				return fmt.Sprintf("missing: cell (%d,%d) holds %q but was never drawn on the page", x, y, want)
 			}
 			if pc.s != want {
@@ -311,7 +323,7 @@ func draws() {
 		for x := 0; x < 4; x++ {
 			ops = append(ops, op{kind: "set", x: x, r: 'a'}, op{kind: "set", x: x, r: '世', st: 1})
 		}
-		ops = append(ops, op{kind: "set", x: 2, r: 'e', comb: []rune{0x0301}}, op{kind: "set", x: 0, r: 0x1b}, op{kind: "fill", r: 'b', st: 2}, op{kind: "clear"}, show, sync)
+		ops = append(ops, op{kind: "set", x: 2, r: 'e', comb: []rune{0x0301}}, op{kind: "set", x: 0, r: 0x1b}, op{kind: "fill", r: 'b', st: 2}, op{kind: "clear"}, show, sync, op{kind: "suspendresume"})
 		scen["W-wide-4x1"] = ops
 	}
 	{
